@@ -753,6 +753,7 @@ def monitor(sc, views, known_hit=None):
     ro_lost = False     # the owner is suspended and the topic was (re)loaded since: the read-only bit is gone (known finding)
     rows = p2p_rows(sc)
     roots = roots_of(sc)
+    pdiv = {}           # p2p topic -> {user: name of the known stale-cache trigger that hit him since THIS topic instance was loaded}
     p_lost = {}         # p2p topic -> why it is writable although a party is suspended ("reload" | "peer"): known findings
     win_fault = "N"     # fault plan of the held {del topic}: a request other than {pub} to the group topic first lets it finish
     for k, v in enumerate(views):
@@ -845,14 +846,26 @@ def monitor(sc, views, known_hit=None):
             attached = p["loaded"] and sid in p["sess"]
             writer = "W" in eff(want, given)
             expect = attached and writer and not p["ro"]
+            # the known trigger on THIS topic instance: an acknowledged not-attached {set sub} of this user changed his
+            # stored row while the p2p topic was loaded, the topic has not been reloaded since, and his cached mode
+            # still differs from the stored one
+            pstale = None
+            if not crashed_first and p["loaded"] and actor in pdiv.get(kk, {}) and tuple(p["users"].get(actor, ("-", "-"))) != (want, given):
+                pstale = pdiv[kk][actor]
             desc = "session %d (user %s) to p2p topic %d of users %s: attached=%s stored mode %s/%s cached mode %s read-only=%s suspended accounts %s" % (
                 sid, actor, kk, rows[kk][:2], attached, want, given, "/".join(p["users"].get(actor, ("-", "-"))), p["ro"], sorted(px.susp))
             if acked and p["ro"]:
                 res.append(("publish-accepted-while-suspended", k, "publish accepted by a suspended (read-only) p2p topic; " + desc))
             elif acked and not (attached and writer):
-                res.append(("publish-accepted-without-write", k, "publish accepted; " + desc))
+                if pstale and attached:
+                    known("stale-cache-" + pstale, "publish to a p2p topic accepted on the cached mode; " + desc)
+                else:
+                    res.append(("publish-accepted-without-write", k, "publish accepted; " + desc))
             elif expect and not acked and fault == "N":
-                res.append(("publish-by-writer-rejected", k, "publish by an attached writer answered %s; %s" % (mine, desc)))
+                if pstale:
+                    known("stale-cache-" + pstale, "publish to a p2p topic refused on the cached mode; " + desc)
+                else:
+                    res.append(("publish-by-writer-rejected", k, "publish by an attached writer answered %s; %s" % (mine, desc)))
             if acked and p_lost.get(kk):
                 known("suspended-party-accepted-after-" + ("reload" if p_lost[kk] == "reload" else "peer-resumed"),
                       "publish accepted although a party is suspended (%s); %s" % (
@@ -998,6 +1011,20 @@ def monitor(sc, views, known_hit=None):
                     for u in (actor, prev.cache.get("owner")):
                         if modes(v.subs.get(u)) != modes(v.cusers.get(u)):
                             div[u] = "transfer-fault"
+            # the same trigger on a peer-to-peer topic: exactly an ACKNOWLEDGED (200) {set sub} of the user's own row from a
+            # session that is not attached to that topic, while the topic instance stays loaded across the request and
+            # the stored row now differs from the cached one; forgotten as soon as the topic is seen not loaded
+            for kk, q in x.p2p.items():
+                p = px.p2p.get(kk)
+                if not q["loaded"] or p is None or not p["loaded"] or fault[0] == "C" or kind == "restart" or crashed_first:
+                    pdiv.pop(kk, None)
+            if kind == "p2posetx" and actor is not None and fault[0] != "C" and not crashed_first:
+                kk = args[1]
+                p, q = px.p2p.get(kk), x.p2p.get(kk)
+                if p and q and p["loaded"] and q["loaded"] and sid not in p["sess"] and mine and mine[0].startswith("ctrl 200"):
+                    br, ar = px.p2prows.get(kk, {}).get(actor), x.p2prows.get(kk, {}).get(actor)
+                    if br and ar and ar[:2] != br[:2] and tuple(q["users"].get(actor, ("-", "-"))) != ar[:2]:
+                        pdiv.setdefault(kk, {})[actor] = "offline-setsub"
             owner = v.cache.get("owner") if v.loaded else None
             if owner not in x.susp or not v.loaded:
                 ro_lost = False
